@@ -1039,8 +1039,23 @@ def run_check(tier, seed):
 
 def _run(V, rng, tier, seed, tree, wd):
     thorough = (tier == 'thorough')
+    # ---- tools first: the scratch build is shared and may be evicted by a concurrent check of another tree
+    T = None
+    for attempt in (1, 2):
+        try:
+            T = build_tools(tree, wd)
+            apirun = apicmp.build_apirun(tree, wd)
+            break
+        except BuildFailed as ex:
+            if attempt == 1 and not os.path.exists(os.path.join(tree, 'src/utils/ncvalidator/ncvalidator.c')):
+                tree = build_impl('plain')
+                continue
+            V.broken_tie('utilities do not compile', str(ex)[-1500:])
+            return V.finish()
+    log('[S1] utilities and apirun compiled from %s (%.1fs)' % (tree, V.t.s()))
     # ---- S3 prove
     ok, out = lake_build(['PnVerif.Props.C20', 'c20drv'])
+    log('[S3] lake build %s (%.1fs)' % ('ok' if ok else 'FAILED', V.t.s()))
     failed_thms = set()
     if not ok:
         for f, ln, msg in lake_errors(out):
@@ -1051,6 +1066,7 @@ def _run(V, rng, tier, seed, tree, wd):
     obl = obligations_of('PnVerif/Props/C20.lean')
     discharged, bad = axiom_audit('PnVerif.Props.C20', obl, 'PnVerif.Props.C20') if ok else ([], [])
     forb = grep_forbidden([os.path.join(LEAN, f) for f in LEAN_FILES])
+    log('[S3] axiom audit: %d of %d obligations discharged (%.1fs)' % (len(discharged), len(obl), V.t.s()))
     V.cov['obligations'] = len(obl)
     V.cov['discharged'] = len(discharged)
     V.cov['checker_cmd'] = 'cd lean && lake build PnVerif.Props.C20 c20drv && lake env lean <#print axioms of every obligation>'
@@ -1062,13 +1078,6 @@ def _run(V, rng, tier, seed, tree, wd):
     proof_broken = (not ok) or bad or forb or len(discharged) < len(obl)
     if not os.path.exists(os.path.join(LEAN, '.lake/build/bin/c20drv')):
         V.broken_tie('Lean driver c20drv does not build', out[-1500:])
-        return V.finish()
-    # ---- S4 tools
-    try:
-        T = build_tools(tree, wd)
-        apirun = apicmp.build_apirun(tree, wd)
-    except BuildFailed as ex:
-        V.broken_tie('utilities do not compile', str(ex)[-1500:])
         return V.finish()
     fails = []        # (sig, description, replay)
     ties = []         # (stream, detail)
@@ -1092,7 +1101,7 @@ def _run(V, rng, tier, seed, tree, wd):
     # =====================================================================================
     # stream lib: files written by the library from logical descriptions
     # =====================================================================================
-    nbase = 18 if thorough else 6
+    nbase = 45 if thorough else 6
     prog = apigen.Prog('-', 1)
     files = {}          # key -> dict(path, L, steps)
     groups = []         # (base key, [(variant key, tag, equal)])
@@ -1119,9 +1128,17 @@ def _run(V, rng, tier, seed, tree, wd):
     W_noatt = clone(W); W_noatt['gatts'] = []
     W_ext = dict(fmt=5, dims=[('x', 2)], gatts=[('gu', 'uint', [7])], numrecs=0,
                  vars=[dict(name='v', xt='int', dims=['x'], atts=[('al', 'int64', [5])], data=[[1, 2]])])
-    for nm, L in [('w', W), ('w_rec', W_rec), ('w_byte', W_byte), ('w_batt', W_batt), ('w_noatt', W_noatt), ('w_ext', W_ext)]:
+    W_empty = dict(fmt=2, dims=[('x', 1)], gatts=[('g', 'int', [1])], numrecs=0,
+                   vars=[dict(name='v', xt='int', dims=['x'], atts=[('a0', 'char', []), ('a1', 'short', [61, 2])], data=[[34]])])
+    for nm, L in [('w', W), ('w_rec', W_rec), ('w_byte', W_byte), ('w_batt', W_batt), ('w_noatt', W_noatt), ('w_ext', W_ext), ('w_empty', W_empty)]:
         files[nm] = dict(path=os.path.join(wd, nm + '.nc'), L=L, kw={})
         files[nm]['steps'] = emit_script(prog, files[nm]['path'], L)
+    if thorough:
+        # a header larger than ncvalidator's 1 MiB read window (the model reads flat): 300 text attributes of 4001 bytes
+        BIG = dict(fmt=1, dims=[('x', 2)], gatts=[('big%03d' % i, 'char', [97 + (i + j) % 26 for j in range(4001)]) for i in range(300)],
+                   numrecs=0, vars=[dict(name='v', xt='short', dims=['x'], atts=[('u', 'char', [109])], data=[[1, 2]])])
+        files['big'] = dict(path=os.path.join(wd, 'big.nc'), L=BIG, kw={})
+        files['big']['steps'] = emit_script(prog, files['big']['path'], BIG)
     sp = save('lib_script.txt', prog.text().encode())
     rc, impl, err = apicmp.run_impl(apirun, sp, 1, wd, timeout=300, alarm=120)
     res = {}
@@ -1217,7 +1234,9 @@ def _run(V, rng, tier, seed, tree, wd):
     # ---- dump | gen round trip (files without attributes of the extended types; see the known finding)
     def has_ext_att(L):
         return any(a[1] in EXT for a in L['gatts']) or any(a[1] in EXT for v in L['vars'] for a in v['atts'])
-    rt_keys = [k for k in files if (k.startswith('b') and not has_ext_att(files[k]['L']))][:(40 if thorough else 10)] + ['w', 'w_ext']
+    def has_empty_att(L):
+        return any(not a[2] for a in L['gatts']) or any(not a[2] for v in L['vars'] for a in v['atts'])
+    rt_keys = [k for k in files if (k.startswith('b') and not has_ext_att(files[k]['L']) and not has_empty_att(files[k]['L']))][:(40 if thorough else 10)] + ['w', 'w_ext', 'w_empty']
 
     def round_trip(k):
         f = files[k]
@@ -1238,6 +1257,11 @@ def _run(V, rng, tier, seed, tree, wd):
         evals[0] += 1
         count('roundtrip')
         okrt = (d == '0,0' and same is True)
+        if k == 'w_empty':
+            if not okrt:
+                fail('dumpgen-empty-char-attribute', 'ncmpidump | ncmpigen turns a zero-length NC_CHAR attribute into one of length 1: cdfdiff=%s' % (d,),
+                     dict(logical=files[k]['L']))
+            continue
         if k == 'w_ext':
             if not okrt:
                 fail('dumpgen-extended-attr-suffix', 'ncmpidump | ncmpigen fails for a CDF-5 file with attributes of type uint/int64: %s' % (same if d == 'gen-failed' else d,),
@@ -1253,7 +1277,7 @@ def _run(V, rng, tier, seed, tree, wd):
     # stream prog: files written by the programs of the other properties
     # =====================================================================================
     log('[S4] round trips done (%.1fs)' % V.t.s())
-    nprog = 12 if thorough else 4
+    nprog = 30 if thorough else 4
     progs = []
     for i in range(nprog):
         npr = (1, 2, 3)[i % 3]
@@ -1312,8 +1336,20 @@ def _run(V, rng, tier, seed, tree, wd):
     # stream bytes: header-violating variants
     # =====================================================================================
     log('[S4] stream prog done (%.1fs)' % V.t.s())
-    bases = synthetic_headers() + [files[k]['bytes'] for k in files if k.startswith('b') and '_' not in k][:(9 if thorough else 4)]
+    bases = synthetic_headers() + [files[k]['bytes'] for k in files if k.startswith('b') and '_' not in k][:(20 if thorough else 4)]
     variants = []
+    if 'big' in files:
+        bb = files['big']['bytes']
+        segs = segments(files['big']['h'])
+        pos = 0
+        for l, x in segs:
+            if l.endswith('.valpad') and len(x) > 0 and pos > (1 << 20) - 9000:
+                bad = bytearray(bb)
+                bad[pos + rng.below(len(x))] = 1 + rng.below(255)
+                variants.append((-2, 'padding', 'reject', bytes(bad)))
+            pos += len(x)
+        variants = variants[:6]
+        variants.append((-2, 'vsize', 'accept', bb))
     for bi, b in enumerate(bases):
         for cls, expect, vb in byte_variants(rng, b, tier):
             variants.append((bi, cls, expect, vb))
